@@ -30,14 +30,14 @@ func init() {
 // oracleV4 is the documented refused floor for an IPv4 address, written as
 // plain prefix tests (independent of the CIDR tables in ipguard.go).
 func oracleV4(a, b, c, d byte) bool {
-	r := a == 0                                         // 0.0.0.0/8 "this network"
-	r = verifOr(r, a == 127)                            // loopback
-	r = verifOr(r, a == 10)                             // RFC 1918
-	r = verifOr(r, verifAnd(a == 172, b&0xf0 == 16))    // 172.16/12
-	r = verifOr(r, verifAnd(a == 192, b == 168))        // 192.168/16
-	r = verifOr(r, verifAnd(a == 169, b == 254))        // link-local / metadata
-	r = verifOr(r, verifAnd(a == 100, b&0xc0 == 64))    // CGNAT 100.64/10
-	r = verifOr(r, a >= 224)                            // multicast + reserved
+	r := a == 0                                      // 0.0.0.0/8 "this network"
+	r = verifOr(r, a == 127)                         // loopback
+	r = verifOr(r, a == 10)                          // RFC 1918
+	r = verifOr(r, verifAnd(a == 172, b&0xf0 == 16)) // 172.16/12
+	r = verifOr(r, verifAnd(a == 192, b == 168))     // 192.168/16
+	r = verifOr(r, verifAnd(a == 169, b == 254))     // link-local / metadata
+	r = verifOr(r, verifAnd(a == 100, b&0xc0 == 64)) // CGNAT 100.64/10
+	r = verifOr(r, a >= 224)                         // multicast + reserved
 	_ = c
 	_ = d
 	return r
